@@ -138,7 +138,7 @@ def required_for(year):
     return [r for r in T.REQUIRED if year in r[2]]
 
 
-def check_solution(res, year, sol, label, rp, base_keys=None):
+def check_solution(res, year, sol, label, rp, base_keys=None, solved=True):
     from hv import instr, statutory as st
     parsed, trans, places = rules_for(year)
     ev = instr.Evaluator(sol)
@@ -170,7 +170,7 @@ def check_solution(res, year, sol, label, rp, base_keys=None):
                     res.distinct.add(rk)
                 if status_ == 'mismatch':
                     res.violation(f'C02|{year}|{form}.{line}|{r.kind}', f'{label}: {full}.{line} = {got} but its instruction "{r.text}" gives {exp:.2f} ({r.provenance})', rp)
-        if base_keys is None:
+        if base_keys is None and solved:      # a return that did not solve stopped somewhere: nothing is required of what it did not reach
             for form, line, years, cond, cite in required_for(year):
                 if form != base:
                     continue
@@ -184,8 +184,9 @@ def check_solution(res, year, sol, label, rp, base_keys=None):
                 res.evaluations += 1
                 res.count('rule_instances_required_line')
                 res.distinct.add(f'{year}|{form}.{line}|required')
-                if f'{full}.{line}' not in sol:
-                    res.violation(f'C02|{year}|{form}.{line}|required-line-absent', f'{label}: {full}.{line} is not in the solved return although the instructions require it here ({cite})', rp)
+                want = line if '.' in line else f'{full}.{line}'       # 'form.line' names a line of another (single-instance) form
+                if want not in sol:
+                    res.violation(f'C02|{year}|{form}.{line}|required-line-absent', f'{label}: {want} is not in the solved return although the instructions require it here ({cite})', rp)
         if status is None:
             continue
         for (form, line), lst in trans.items():
@@ -249,7 +250,27 @@ def directed_ira(res, year, p, sol, label, rp):
 
 def directed_personas(year, seed, n):
     from hv import scen
-    return scen.directed_personas(year, seed, n)
+    from hv import statutory as st
+    from hv.common import rng_for
+    out = list(scen.directed_personas(year, seed, n))
+    # N.C. taxable income (D-400 line 14) exactly ON a limit of the use-tax table, one dollar below and one above:
+    # solve once, then move the wages by the distance to the limit
+    r = rng_for('C02usetax', seed, year)
+    for k in range(n):
+        lim = r.choice(st.NC_USE_TAX_LIMITS)
+        for d in (0.0, -1.0, 1.0):
+            p0 = scen.plain_persona(year, 'S', 60000.0, key=f'dirusetax:{seed}:{k}', nc=True)
+            p0.ncv.update({'no_consumer_use_tax': False, 'full_records': False})
+            o0 = scen.solve_persona(p0)
+            if o0.exc is not None or o0.ret is not True:
+                continue
+            l14 = scen.typed_solution(o0).get('nc_d-400.14')
+            if l14 is None:
+                continue
+            p = scen.plain_persona(year, 'S', 60000.0 + (lim + d - l14), key=f'dirusetax:{seed}:{k}:{d}', nc=True)
+            p.ncv.update({'no_consumer_use_tax': False, 'full_records': False})
+            out.append(('F8u', p))
+    return out
 
 
 def run_shard(spec, tier, seed):
@@ -268,7 +289,7 @@ def run_shard(spec, tier, seed):
                 continue
             sol = {k: v[-1] for k, v in tv.stored.items()}
             res.count('solutions_checked')
-            check_solution(res, year, sol, f'{year} {fam} {p.key}', realwork.replay_of(p, 'base', spec))
+            check_solution(res, year, sol, f'{year} {fam} {p.key}', realwork.replay_of(p, 'base', spec), solved=(out.exc is None and out.ret is True))
             # second pass: the same return with EVERY line of every participating form
             # demanded (optional lines through field_names), so that the operand of a
             # carry exists even where the code under test reads another line.  Only
